@@ -83,3 +83,30 @@ Lemma steps_all_mono (P Q : expr -> Prop) ps : (forall e, P e -> Q e) -> steps_a
 Proof. intros H. unfold steps_all. apply Forall_impl. intros p Hp e He. apply H, Hp, He. Qed.
 Lemma steps_all_intro (P : expr -> Prop) ps : (forall e, P e) -> steps_all P ps.
 Proof. intros H. apply Forall_forall. intros p _ e _. apply H. Qed.
+
+(* ---------------------------------------------------------------- sizes (for inductions that need "everything smaller") *)
+Definition psize_with (es : expr -> nat) (p : path) : nat :=
+  match p with PFilter e | PPredicate e => S (es e) | _ => 1 end.
+Fixpoint esize (e : expr) {struct e} : nat :=
+  match e with
+  | EPaths l => S (list_sum (map (psize_with (fun e' => esize e')) l))
+  | EValue _ => 1
+  | EBin _ l r => S (esize l + esize r)
+  | EArithU _ x => S (esize x)
+  | EArithB _ l r => S (esize l + esize r)
+  | EExists l => S (list_sum (map (psize_with (fun e' => esize e')) l))
+  end.
+Definition psize (p : path) : nat := psize_with esize p.
+Lemma esize_exists l : esize (EExists l) = S (list_sum (map psize l)).
+Proof. reflexivity. Qed.
+Lemma esize_paths l : esize (EPaths l) = S (list_sum (map psize l)).
+Proof. reflexivity. Qed.
+Lemma esize_bin op l r : esize (EBin op l r) = S (esize l + esize r).
+Proof. reflexivity. Qed.
+Lemma psize_filter e : psize (PFilter e) = S (esize e).
+Proof. reflexivity. Qed.
+Lemma psize_in p l : In p l -> psize p <= list_sum (map psize l).
+Proof.
+  induction l as [|q l IH]; [intros []|]. cbn [map list_sum]. intros [->|H]; [apply PeanoNat.Nat.le_add_r|].
+  apply IH in H. apply (PeanoNat.Nat.le_trans _ _ _ H). apply PeanoNat.Nat.le_add_l.
+Qed.
